@@ -3,6 +3,7 @@ import random
 
 import c05
 import clientmodel
+import hydmodel
 import domlib
 import viewgen
 import vlib
@@ -185,6 +186,69 @@ def main(argv):
         chk.traces = len(sel)
     chk.obligation("correspondence: after hydration the visible tree follows Dom/Client.v through every write (%d scenarios)" % len(sel),
                    model is not None and not mism, str(mism[:1]))
+    # correspondence with the hydration model Dom/Hydrate.v: given the REAL parsed server DOM it must predict the DOM right after
+    # hydration (structure and which server nodes are still there) wherever the oracle found nothing wrong, and an error where the
+    # real code panicked
+    def pre_of(out):
+        if out[0].startswith("pre "):
+            return out[0].split(" ; nodes ")[1], (out[1] if len(out) > 1 else "PANIC")
+        if out[0].startswith("PANIC") and len(out) > 1 and out[1].startswith("prenodes "):
+            return out[1][len("prenodes "):], out[0]
+        return None, None
+    hsel = [i for i in range(len(cases)) if pre_of(impl[i])[0] is not None]
+    hmism, hagree, herrs, hunsup = [], 0, 0, 0
+    okh, outh = vlib.coq_make(["theories/Dom/Hydrate.vo"])
+    chk.obligation("coq build theories/Dom/Hydrate.vo (hydration model)", okh, outh)
+    hmodel = None
+    if okh:
+        try:
+            ren = [hydmodel.renumber(pre_of(impl[i])[0]) for i in hsel]
+            hmodel = hydmodel.run_model(PID + "h", [(cases[i][0], cases[i][1], r[0]) for i, r in zip(hsel, ren)])
+        except RuntimeError as e:
+            chk.obligation("model evaluation (Dom/Hydrate.v)", False, str(e)[-800:])
+    if hmodel is not None:
+        for i, (pre2, ids), mo in zip(hsel, ren, hmodel):
+            realline = pre_of(impl[i])[1]
+            if mo.startswith("UNSUPPORTED"):
+                hunsup += 1
+                continue
+            if realline.startswith("PANIC"):
+                if mo.startswith("ERR"):
+                    herrs += 1
+                elif i not in failed:
+                    hmism.append({"scenario": lines[i], "what": "the real hydration panicked, the model did not"})
+                continue
+            if i in failed:
+                continue                     # judged by the oracle (known findings): the model is not asked
+            if mo.startswith("ERR"):
+                hmism.append({"scenario": lines[i], "what": "the model fails (%s), the real hydration did not" % mo})
+                continue
+            parts = dict(p.split(" ", 1) if " " in p else (p, "") for p in realline.split(" ; "))
+            if hydmodel.observation(parts["nodes"], ids) == hydmodel.observation(mo, {k: k for k in ids.values()}):
+                hagree += 1
+            else:
+                hmism.append({"scenario": lines[i], "what": "DOM after hydration differs", "real": parts["nodes"][:400], "model": mo[:400]})
+        chk.traces += hagree
+        chk.cov["hydration_model"] = {"agree": hagree, "both_fail": herrs, "outside_model": hunsup}
+    # the model's own server DOM (Ssr/View.v build -> parse: entities decoded, character data merged) = what the DOM shim's HTML
+    # parser made of the real server string
+    smism = []
+    if hmodel is not None:
+        try:
+            sdom = hydmodel.run_server_dom(PID + "s", [(cases[i][0], cases[i][1]) for i in hsel])
+            for i, (pre2, ids), sd in zip(hsel, ren, sdom):
+                if pre2.strip() != sd.strip():
+                    smism.append({"scenario": lines[i], "what": "parsed server DOM differs", "real": pre2[:400], "model": sd[:400]})
+        except RuntimeError as e:
+            smism.append({"what": "model evaluation (server_dom)", "detail": str(e)[-600:]})
+    chk.obligation("correspondence: server_dom (model of the server output as a browser parses it) = the parsed real server string on %d views" % len(hsel),
+                   hmodel is not None and not smism, str(smism[:1]))
+    mism += smism
+    chk.obligation("correspondence: Dom/Hydrate.v predicts the DOM right after hydration from the real server DOM (%d agree, %d predicted failures, %d outside the model)" % (hagree, herrs, hunsup),
+                   hmodel is not None and not hmism, str(hmism[:1]))
+    mism += hmism
+    if hmodel is None:
+        model = None
     findings = {f["key"]: f for f in vlib.load_findings(PID)}
     real = []
     for o in orfail:
